@@ -349,6 +349,9 @@ func oracleC11(f *sessionFam, w *World, res *Result) []Violation {
 					if ce != nil && ce.Seq < yStart {
 						continue // session already closed: other rules apply
 					}
+					if y.Aborted || x.Aborted {
+						continue // a request the client (or the end of the run) abandoned has no status to look at
+					}
 					if y.Status != 400 && x.Status != 400 && (y.NWH > 0 || f.drained) {
 						l.add("overlap-refused", x.Method, fmt.Sprintf("%s: %s requests #%d and #%d overlapped but neither was answered 400 (got %d and %d)", a, x.Method, x.ID, y.ID, x.Status, y.Status))
 					}
@@ -469,6 +472,11 @@ func oracleC12(f *sessionFam, w *World, res *Result) []Violation {
 					continue
 				}
 				if !recv[p] && ac.T < f.endAt-300*time.Millisecond {
+					// the transport on which the batch was lost is the one the session was on when it closed (an
+					// upgrade may have completed between the Close call and the close)
+					if t2 := transportOf(ce.St); t2 != "" && t2 != "-" {
+						tr = t2
+					}
 					l.add("buffered-data-before-close", tr, fmt.Sprintf("%s [%s]: message %q was accepted before Close(false) but the client, which kept reading, never received it (close reason %q)", a, ctx, clip(p, 40), ce.S))
 					break
 				}
@@ -540,9 +548,17 @@ func oracleC12(f *sessionFam, w *World, res *Result) []Violation {
 	}
 	// shutdown closes every session exactly once and empties the table
 	for _, sd := range w.evs("", "app-server-close-ret", "app-http-close-ret") {
+		// the sessions that existed when the shutdown was *invoked*: a handshake racing with the shutdown may
+		// be registered after the server walked its client table (nothing says new sessions are refused)
+		invSeq := sd.Seq
+		for _, e := range w.evs("", "app-server-close", "app-http-close") {
+			if e.Seq < sd.Seq {
+				invSeq = e.Seq
+			}
+		}
 		opened := map[string]bool{}
 		for _, e := range w.Evs {
-			if e.Seq > sd.Seq {
+			if e.Seq > invSeq {
 				break
 			}
 			if e.Kind == "connection" {
